@@ -17,7 +17,9 @@ EXPLANATION = (
     "equals the corresponding scalar method with the same flags cell by cell (no result -> NA / empty cell), every other "
     "cell, the header and the row order are untouched, target_column leaves the source column intact; if any cell makes "
     "the scalar call raise, the bulk call raises too and - for files, with the failing row at a symbolic position - the "
-    "file table entry is identical to its pre-state and was never opened for writing.")
+    "file table entry is identical to its pre-state and was never opened for writing. 'warm' jobs first let the same converter "
+    "serve an earlier lenient (strict=False, own passthrough flag) bulk call over independent symbolic cells that may equal "
+    "the later ones, so state remembered by the bulk layer between calls is part of what is explored.")
 BOUNDS = dict(rows="<= 3 (quick 2)", columns="2-3", records="<= 2", strings="unbounded, full z3 alphabet",
               separators="tab and one custom separator (passed through to the csv layer)")
 OUTSIDE = ["real pandas NA / dtype behaviour beyond 'cell by cell, None = NA'", "csv quoting and byte-for-byte file content beyond "
@@ -41,6 +43,14 @@ def jobs(tier):
         items.append((f"file_{op}", [[0, 0]], False, Q, dict(params=dict(rows=1, header=True, column=-1), budget=600)))     # 'last column'
         items.append((f"file_{op}", [[1, 1]], False, T, dict(params=dict(rows=3, header=True, column=2, ncols=3), budget=3000, shard=9)))
         items.append((f"file_{op}", [[0, 0], [0, 0]], False, T, dict(params=dict(rows=2, header=False, column=0), budget=3000, shard=9)))
+    # history: an earlier lenient bulk call on the same converter over independent cells (hidden state of the bulk layer)
+    for op in ("compress", "expand"):
+        items.append((f"pd_{op}", [[0, 0]], False, Q, dict(params=dict(rows=1, warm=True), budget=600, shard=6)))
+        items.append((f"file_{op}", [[0, 0]], False, Q, dict(params=dict(rows=1, header=False, column=0, warm=True), budget=600, shard=6)))
+        items.append((f"pd_{op}", [[1, 0]], False, T, dict(params=dict(rows=2, warm=True), budget=2400, shard=9)))
+        items.append((f"file_{op}", [[1, 0]], False, T, dict(params=dict(rows=2, header=True, column=1, warm=True), budget=2400, shard=9)))
+    for op in ("standardize_prefix", "standardize_curie", "standardize_uri"):
+        items.append((f"pd_{op}", [[1, 0]], False, T, dict(params=dict(rows=1, warm=True), budget=1200, shard=8)))
     exp = {}
     for it in items:
         exp[it[0]] = ["ok", "raised"]
@@ -92,13 +102,17 @@ def build(job):
         use_target = target is not None
         if eng.mods.symbolic:
             from .. import stubs
-            df = stubs.DataFrame({"a": a, "b": b})
+            mkdf = stubs.DataFrame
+            df = mkdf({"a": a, "b": b})
 
             def col(name):
                 return list(df.cols[name]) if name in df.cols else None
         else:
             import pandas
-            df = pandas.DataFrame({"a": a, "b": b}, dtype=object)
+
+            def mkdf(d):
+                return pandas.DataFrame(d, dtype=object)
+            df = mkdf({"a": a, "b": b})
 
             def col(name):
                 if name not in df.columns:
@@ -111,6 +125,12 @@ def build(job):
         if op in ("compress", "expand"):
             kw["ambiguous"] = ambiguous
         method = getattr(conv, f"pd_{op}")
+        if params.get("warm"):
+            # the same converter already served a lenient bulk call over other (possibly equal) cells, with its own flags
+            wkw = dict(column="b", strict=False, passthrough=eng.flag("warm_passthrough"))
+            if op in ("compress", "expand"):
+                wkw["ambiguous"] = ambiguous
+            method(mkdf({"a": [eng.var("wa")], "b": [eng.var("w0")]}), **wkw)
         try:
             if op in ("compress", "expand"):
                 method(df, **kw)
@@ -154,11 +174,27 @@ def build(job):
             def read():
                 with open(path, newline="") as f:
                     return [list(r) for r in _csv.reader(f, delimiter=sep or "\t")]
-        before = read()
         want = scalar_results(scalar_for(conv, op, ambiguous), [r[column] for r in rows], strict, passthrough)
         kw = dict(strict=strict, passthrough=passthrough, ambiguous=ambiguous, header=header)
         if sep:
             kw["sep"] = sep
+        if params.get("warm"):
+            # an earlier lenient call on the same converter over another file with independent (possibly equal) cells
+            wrow = [eng.var(f"w{j}") for j in range(ncols)]
+            if eng.mods.symbolic:
+                wpath = "warm.tsv"
+                stubs.FS[wpath] = [("row", list(wrow))]
+            else:
+                if awkward(wrow):
+                    return "<precondition-not-met: cells the csv dialect cannot carry unchanged>"
+                wpath = os.path.join(os.path.dirname(path), "warm.tsv")
+                with open(wpath, "w", newline="") as f:
+                    _csv.writer(f, delimiter=sep or "\t").writerows([wrow])
+            wkw = dict(kw, strict=False, passthrough=eng.flag("warm_passthrough"), header=False)
+            getattr(conv, f"file_{op}")(wpath, column, **wkw)
+            if eng.mods.symbolic:
+                del stubs.WRITES[:]
+        before = read()
         try:
             getattr(conv, f"file_{op}")(path, column, **kw)
         except ValueError as e:
